@@ -66,11 +66,14 @@ def main():
                "differs from the modelled three roundings in the last bit, C09-16 retypes a dots() constant one ulp off, C17-18 "
                "truncates instead of rounding tick counts that are not whole (outside C17's stated domain; C16 reports it), C18-15 "
                "changes the parallel scheduler only where the unchanged code is already wrong (known finding), C11-19 changes only "
-               "the diminished unisons b1/bb1 (-1 and -2 semitones, outside the stated sizes 0-11), see 0.3b), so "
+               "the diminished unisons b1/bb1 (-1 and -2 semitones, outside the stated sizes 0-11), C08-21 changes the roots "
+               "that the recursive substitute() combines, of which the statement promises nothing (the four documented rules are "
+               "judged), see 0.3b), so "
                "the report names the theorems that no longer check, as the brief prescribes." % (
                    n_rounds, 2 * n_rounds - 1, 2 * n_rounds, n_all - len(missed), n_all, n_conc, "" if not missed else "; not reported: " + ", ".join(missed) +
                    " (C15-15 makes chords.invert hand back the caller's own one-note list, which the statement of C15 does not forbid "
-                   "and the unchanged chords.determine(['C#']) does too, see 0.3b)",
+                   "and the unchanged chords.determine(['C#']) does too; C10-22 still rejects 'H-4', with an error class of the same "
+                   "name from another module, and the statement asks for rejection; see 0.3b)",
                    ", ".join(nfi) if nfi else "None"))
     text = "\n".join(out) + "\n"
     p = os.path.join(V, "DESIGN.md")
